@@ -129,7 +129,8 @@ func cmdShut(args []string) error {
 				b.Close(ctx)
 				setRes(p, "ok")
 			case "writer":
-				setRes(p, classify(c.SetRaw("w", 0, nil, []byte("w"))))
+				// the first expiry of the bucket: the timer is armed after the event has been posted
+				setRes(p, classify(c.SetRaw("w", uint32(time.Now().Unix())+1, nil, []byte("w"))))
 			case "open1":
 				var err error
 				h1, err = rosmar.OpenBucket(url, name, rosmar.ReOpenExisting)
@@ -214,6 +215,10 @@ func cmdShut(args []string) error {
 		}
 	}
 	line.Feeds = int(rosmar.VerifActiveFeedCount())
+	if has("writer") {
+		// a timer armed by the writer after the store was shut down would fire now (and panic the process)
+		time.Sleep(2200 * time.Millisecond)
+	}
 	js, _ := json.Marshal(line)
 	fmt.Println("SHUT " + string(js))
 	os.Exit(0) // do not wait for goroutines that may be blocked for good
